@@ -69,12 +69,41 @@ def run(ctx):
     ]
 
 
+def _replay_recorded(path, lib):
+    """like vlib.replay_recorded, but the trace spec evaluates SHA-1 (deep recursion): TLC needs -Xss"""
+    import json
+    import shutil
+    tmp = os.path.join(vlib.BUILD, "tmp", "replay-%d" % os.getpid())
+    os.makedirs(tmp, exist_ok=True)
+    try:
+        trace = path
+        if not path.endswith(".ndjson"):
+            info = json.load(open(path))
+            exe = vlib.build_harness(lib, "c11_record", ["c11_record.cpp"])
+            trace = os.path.join(tmp, "t.ndjson")
+            cmd = [exe, "--seed", str(info["seed"]), "--events", str(info["events"]), "--out", trace] + list(info.get("args", []))
+            p = subprocess.run(["timeout", "900"] + cmd, env=vlib.run_env(ENV))
+            if p.returncode != 0:
+                print("recorder failed again with exit %d (seed %s): violation reproduced" % (p.returncode, info["seed"]))
+                return 1
+        r = vlib.tlc("Trace_WsFrame", "Trace_WsFrame", workers=1, timeout=1800, env={"TRACE": trace}, xss="512m")
+        if r.rc == 0:
+            print("trace accepted by Trace_WsFrame")
+            return 0
+        if r.violated() is None:
+            print(r.tail(40))
+            return 2
+        print("trace rejected by Trace_WsFrame near event %d: %s" % (r.depth, vlib._nth_line(trace, r.depth)))
+        return 1
+    finally:
+        shutil.rmtree(tmp, ignore_errors=True)
+
+
 def replay(path):
     lib = vlib.build_lib("asan")
     base = os.path.basename(path)
     if base.startswith("rec-") or path.endswith(".ndjson"):
-        os.environ["ASAN_OPTIONS"] = ASAN
-        return vlib.replay_recorded(path, lib, "c11_record", ["c11_record.cpp"], "Trace_WsFrame", "Trace_WsFrame")
+        return _replay_recorded(path, lib)
     rep = vlib.build_harness(lib, "c11_replay", ["c11_replay.cpp"])
     r = subprocess.run([rep, "--single", path, "--case-timeout-ms", "15000"], env=vlib.run_env(ENV))
     return 1 if r.returncode == 1 else (0 if r.returncode == 0 else 2)
